@@ -327,9 +327,27 @@ def inst_where_out(rank, owndata):
                     unit="_elemwise_handle_where", api_replay=api)
 
 
+def _program_body(E, w, prog):
+    """ufunc(..., where=mask, out=o) programs through the real Elemwise node, optimizer and kernels: the result is
+    where(mask, op(...), o) -- also when two such calls that differ only in their out= target meet in one graph"""
+    from . import catalog
+
+    for stage in ("materialized", "materialized_off"):
+        m = catalog.stages(E, w, prog.node, {stage})[stage]
+        whole, dsk, r = catalog.run_tree(E, m, prog.node.chunks, stage, check_shapes=True)
+        same_array(E, whole, prog.ref, label=f"{stage}-values", skolem=f"p{stage[-1]}")
+
+
+def _program_instances(tier):
+    from . import catalog
+
+    return catalog.make_instances(tier, "C11", _program_body, "Elemwise(where=, out=) naming, lowering, _elemwise_handle_where",
+                                  select=lambda name: "where=" in name)
+
+
 def instances(tier):
     q = tier == "quick"
-    out = []
+    out = _program_instances(tier)
     steps = [None, 1, 2, -1, -2] if q else [None, 1, 2, 3, -1, -2, -3]
     for m in ([1, 2, 3] if q else [1, 2, 3, 4]):
         for st in steps:
@@ -340,6 +358,9 @@ def instances(tier):
                     continue
                 out.append(inst_assign((m,), ((ps, pe, st),), "exact"))
         out.append(inst_assign((m,), ("i",), "scalar"))
+    # a stride of 3 crossing block edges off the stride (the local start inside later blocks)
+    out.append(inst_assign((3,), ((0, 0, 3),), "scalar"))
+    out.append(inst_assign((2,), ((1, 1, -3),), "exact"))
     out.append(inst_assign((2,), ((1, 1, None),), "scalar"))
     out.append(inst_assign((2,), ((1, 1, -1),), "ones"))
     out.append(inst_assign((2,), ((1, 1, 2),), "ones"))
